@@ -16,16 +16,19 @@ NOTE = ('Bounded: geometries, lengths and parameter ranges as stated in the evid
 CLAIMED = {
     'C05': ('4 C05', 'Every path of the cursor-motion functions and of csi_dispatch for the motion finals is decided by z3 '
             'against closed-form clamping rules with the geometry itself symbolic (1..=140 x 1..=40), so one query covers '
-            'every (geometry, cursor, margins, DECOM, parameter) combination inside the bounds.'),
+            'every (geometry, cursor, margins, DECOM, parameter) combination inside the bounds; the same finals are also run end '
+            'to end through Parser<Screen> with symbolic parameter digits (an omitted number arrives as 0).'),
     'C07': ('4 C07', 'ED/EL/ECH run from a symbolic pre-state (every cell/row present or absent, symbolic renditions, '
             'cursor at every position) with the selector/count symbolic over absent|0..=9999; the post-grid is compared '
-            'cell by cell with the documented range by z3.'),
+            'cell by cell with the documented range by z3; also through csi_dispatch and end to end through the recogniser.'),
     'C06': ('4 C06', 'index/reverse_index/linefeed/IL/DL run from symbolic pre-states whose every row is present or absent '
             'with distinct markers, every region and cursor row, symbolic counts; z3 compares each post row with the '
-            'documented shifted/blank/untouched source row. DECSTBM is decided on a symbolic geometry in closed form.'),
+            'documented shifted/blank/untouched source row and that nothing survives in storage beyond the screen; the same '
+            'operations as the recogniser delivers them (ESC D/M/E, LF/VT/FF, CSI L/M). DECSTBM is decided on a symbolic '
+            'geometry in closed form.'),
     'C13': ('4 C13', 'ICH/DCH single steps against the list-splice rule, plus two-step (thorough three-step) edit '
             'sequences over {ICH,DCH,EL,ECH,draw,IRM-draw} whose last step must obey the rule relative to what was '
-            'visible before it, which is what makes a reappearing discarded cell a solver witness.'),
+            'visible before it, which is what makes a reappearing discarded cell a solver witness; CSI @ / CSI P end to end.'),
     'C04': ('4 C04', 'draw of one character of each width class from symbolic pre-states against a reference placement '
             'semantics; strings are lifted by a relational check (one call == one call per character) decided by z3 '
             'over two runs of the implementation.'),
@@ -34,7 +37,7 @@ CLAIMED = {
             'state; each clause is a separate solver query per path.'),
     'C17': ('4 C17', 'For every operation of the sweep from a symbolic state with a just-cleared dirty set, z3 decides that '
             'every row whose observable cells changed is in the dirty set, that screen-wide operations mark all rows, and '
-            'that no index outside the screen is present.'),
+            'that no index outside the screen is present, also for resize followed by a further operation.'),
     'C10': ('4 C10', 'display() output against a reference rendering over every arrangement of narrow/wide/placeholder/'
             'combining/absent cells; purity as a relational lemma decided by z3 over two runs of every operation from '
             'states that differ only in an arbitrary symbolic set of materialised blanks (what display() does).'),
@@ -47,12 +50,15 @@ CLAIMED = {
             'shows the saved-cursor stack is read only by restore_cursor.'),
     'C16': ('4 C16', 'resize to symbolic target sizes from symbolic states against the crop/extend rule on the observable '
             'grid, plus two-step sequences (an edit or a resize, then a resize) whose second step is judged relative to '
-            'what was visible, so hidden cells/rows that reappear on growth are solver witnesses.'),
+            'what was visible, so hidden cells/rows that reappear on growth are solver witnesses; the DECCOLM 132-column round '
+            'trip incl. a stale remembered width.'),
     'C18': ('4 C18', 'HT/HTS/TBC and the default stops decided on a symbolic width 1..=140 with up to three symbolic stops '
-            '(stale stops beyond the width included); the sort and scan of tab() are executed symbolically.'),
+            '(stale stops beyond the width included); the sort and scan of tab() are executed symbolically; resize leaves '
+            'the stop set untouched.'),
     'C08': ('4 C08', 'select_graphic_rendition (API and CSI m) with symbolic codes against an independent left-to-right '
             'fold with its own xterm palette formula; every attribute field is a separate solver query; a character '
-            'drawn afterwards must carry exactly the folded rendition.'),
+            'drawn afterwards (narrow, and both cells of a wide one) must carry exactly the folded rendition; recogniser-level '
+            'jobs show that parameters of an aborted or skipped CSI do not leak into a later CSI n m.'),
     'C12': ('4 C12', 'set_mode/reset_mode with lists of symbolic mode numbers and a symbolic private flag from symbolic '
             'states; z3 decides the resulting mode set for an arbitrary probe number and every documented side effect '
             '(132-column switch executed for real, homing, reverse video on every cell, visibility), plus the DECCOLM '
@@ -74,7 +80,8 @@ CLAIMED = {
             '54k byte strings at start-up and every sampled path natively.'),
     'C19': ('4 C19', 'Parser<Screen> on OSC strings with a symbolic code character and unconstrained symbolic payload characters '
             'for both introducers and all three terminators (and embedded ESC x pairs, empty payload, every cut): z3 '
-            'decides title/icon == payload exactly and that nothing else differs from drawing the trailing character alone.'),
+            'decides title/icon == payload exactly and that nothing else differs from drawing the trailing character alone; '
+            'two strings in a row show that nothing leaks from one into the next.'),
     'C01': ('4 C01', 'Every panic edge of the MIR (overflow asserts, index/unwrap/expect, explicit panics, mutex re-lock) and '
             'the step budget are path outcomes; z3 shows none is feasible (a) for every listener method, resize and '
             'display from arbitrary symbolic well-formed states, with well-formedness re-established (induction over '
